@@ -32,6 +32,32 @@ namespace bloc
 {
 #define IMAGINARY_TO_COMPLEX(i) std::complex<Numeric>((i).a, (i).b)
 
+/* integer power by squaring: the result is exact and overflow wraps around */
+static Integer integer_pow(Integer base, Integer exp)
+{
+  if (exp < 0)
+  {
+    /* the reciprocal is truncated toward zero */
+    if (base == 1)
+      return 1;
+    if (base == -1)
+      return (exp & 1) ? -1 : 1;
+    if (base == 0)
+      throw RuntimeError(EXC_RT_DIVIDE_BY_ZERO);
+    return 0;
+  }
+  uint64_t r = 1;
+  uint64_t b = (uint64_t)base;
+  while (exp)
+  {
+    if (exp & 1)
+      r *= b;
+    b *= b;
+    exp >>= 1;
+  }
+  return Integer(r);
+}
+
 OpEXPExpression::~OpEXPExpression()
 {
   if (arg2)
@@ -98,7 +124,7 @@ Value& OpEXPExpression::value(Context& ctx) const
       {
         if (a2.isNull() || a1.isNull())
           return LVAL2(Value(Value::type_integer), a1, a2);
-        Value val(Integer(std::pow(*a1.integer(), *a2.integer())));
+        Value val(integer_pow(*a1.integer(), *a2.integer()));
         return LVAL2(val, a1, a2);
       }
       case Type::IMAGINARY:
